@@ -224,3 +224,5 @@ def run(ctx):
     run.floor("C20.exact-labels", 5)
     run.floor("C20.total", 5)
     run.floor("C20.specification", 5)
+    from .hidden_state import rule_no_hidden_state
+    ctx.do(rule_no_hidden_state, "C20.history-independence")
